@@ -61,6 +61,10 @@ struct Case {
     /// executor enters for it (the context around a future differs from poll to poll)
     #[serde(default)]
     drivers: bool,
+    /// a future that is still pending after its first poll is cancelled: dropped by a panic
+    /// (caught) that unwinds over it
+    #[serde(default)]
+    cancel_unwinding: bool,
     calls: Vec<(u16, RawIn)>,
     sched: Vec<u8>,
 }
@@ -250,6 +254,8 @@ struct CallResult {
     svc: (i64, u32),
     polls: u32,
     scope_leak: Option<String>,
+    /// the spans that were current when values of the body were dropped by the cancellation
+    cancel_drops: Vec<Option<u64>>,
 }
 struct VariantResult {
     calls: Vec<CallResult>,
@@ -278,6 +284,7 @@ fn run_variant(case: &Case, inst: bool) -> VariantResult {
         let mut outs: Vec<Option<Result<Out, String>>> = vec![None; n];
         let mut polls = vec![0u32; n];
         let mut leaks: Vec<Option<String>> = vec![None; n];
+        let mut cancel_drops: Vec<Vec<Option<u64>>> = vec![vec![]; n];
         {
             let mut futs: Vec<Option<Pin<Box<dyn Future<Output = Out> + '_>>>> = Vec::new();
             for (k, (env, inp)) in envs.iter_mut().zip(inputs.iter()).enumerate() {
@@ -330,6 +337,16 @@ fn run_variant(case: &Case, inst: bool) -> VariantResult {
                 if done {
                     let f = futs[k].take();
                     let _ = catch_unwind(AssertUnwindSafe(|| drop(f)));
+                } else if case.cancel_unwinding && polls[k] == 1 {
+                    let f = futs[k].take();
+                    let before = FX.with(|x| x.borrow().len());
+                    let r = catch_unwind(AssertUnwindSafe(move || {
+                        let _dropped_by_the_unwind = f;
+                        panic!("the task is cancelled by an unwinding owner");
+                    }));
+                    assert!(r.is_err());
+                    cancel_drops[k] = FX.with(|x| x.borrow()[before..].iter().filter(|(s, _)| *s == k).filter_map(|(_, f)| if let Fx::Drop(_, c) = f { Some(*c) } else { None }).collect());
+                    outs[k] = Some(Err("cancelled after the first poll".into()));
                 }
                 let now: Vec<u64> = CUR.with(|c| c.borrow().clone());
                 if now != base && leaks[k].is_none() {
@@ -356,6 +373,7 @@ fn run_variant(case: &Case, inst: bool) -> VariantResult {
                 svc: (envs[k].svc.base, envs[k].svc.calls),
                 polls: polls[k],
                 scope_leak: leaks[k].clone(),
+                cancel_drops: cancel_drops[k].clone(),
             })
             .collect();
         drop(envs);
@@ -521,6 +539,17 @@ fn run_case(case: &Case) -> Outcome {
             if i.marks.iter().any(|m| m.1 != Some(sid)) {
                 return Outcome::fail("part of the body ran outside the call's span", ctx());
             }
+            // a cancelled body is cleaned up inside its span, however the cancellation comes about
+            // (judged for `async fn` twins; in the boxed forms the values the async block captured
+            // are seen to be dropped outside the span on the unchanged tree as well - where a
+            // cancelled body's captures are dropped is not part of the property as read here)
+            let async_fn = desc.src.ends_with("[async]") || desc.src.ends_with("[method_async]");
+            if async_fn && i.cancel_drops.iter().any(|c| *c != Some(sid)) {
+                return Outcome::fail("values of a cancelled body were dropped outside the call's span", format!("current span at those drops: {:?}; {}", i.cancel_drops, ctx()));
+            }
+            if !i.cancel_drops.is_empty() {
+                classes.push("cancelled_by_unwinding_with_live_values".into());
+            }
             if desc.is_async && i.polls >= 2 {
                 classes.push("async_multi_poll_in_span".into());
             }
@@ -599,7 +628,7 @@ impl Property for C17 {
         )
             .prop_map(|(a, b, s, flag, x, y, fbits)| RawIn { a, b, s, flag, x, y, fbits });
         let mode = prop_oneof![6 => Just(Mode::All), 1 => Just(Mode::Never), 1 => Just(Mode::DynOff), 2 => (1u8..6).prop_map(Mode::Cap), 1 => Just(Mode::NoCollector)];
-        (mode, any::<bool>(), proptest::collection::vec((any::<u16>(), raw), 1..4), proptest::collection::vec(any::<u8>(), 0..12), proptest::bool::weighted(0.4)).prop_map(|(mode, outer, calls, sched, drivers)| Case { corpus_seed: corpus::SEED, mode, outer, calls, sched, drivers }).boxed()
+        (mode, any::<bool>(), proptest::collection::vec((any::<u16>(), raw), 1..4), proptest::collection::vec(any::<u8>(), 0..12), (proptest::bool::weighted(0.4), proptest::bool::weighted(0.2))).prop_map(|(mode, outer, calls, sched, (drivers, cancel_unwinding))| Case { corpus_seed: corpus::SEED, mode, outer, calls, sched, drivers, cancel_unwinding }).boxed()
     }
     fn run(&self, case: &Case) -> Outcome {
         run_case(case)
